@@ -45,6 +45,8 @@ type FuncContract struct {
 	Encoder    bool
 	Inline     bool
 	Trusted    bool
+	Timeout    int  // solver seconds for this function's obligations in the quick tier
+	Exact      bool // verify against callee bodies instead of callee contracts
 	Pure       bool // side-effect free and loop free: calls are merged into one outcome
 	Lets       []Clause // Label = name
 	Requires   []Clause
@@ -229,7 +231,7 @@ func pkgOfFile(P *Program, file string) (short string, path string) {
 
 var clauseWords = map[string]bool{"props": true, "decoder": true, "encoder": true, "inline": true,
 	"trusted": true, "requires": true, "ensures": true, "assigns": true, "let": true, "loop": true,
-	"noterm": true, "ghost": true, "determines": true, "pure": true}
+	"noterm": true, "ghost": true, "determines": true, "pure": true, "exact": true, "timeout": true}
 
 func (cs *ContractSet) parseFile(P *Program, file string) error {
 	data, err := os.ReadFile(file)
@@ -410,6 +412,14 @@ func (ct *FuncContract) addClause(w, rest, where string) error {
 		ct.Trusted = true
 	case "pure":
 		ct.Pure = true
+	case "exact":
+		ct.Exact = true
+	case "timeout":
+		n, err := strconv.Atoi(strings.TrimSpace(rest))
+		if err != nil {
+			return err
+		}
+		ct.Timeout = n
 	case "noterm":
 		ct.NoTerm = true
 	case "ghost":
